@@ -3,12 +3,14 @@
 // TestC17 re-executes this test binary once per input (TestC17Scenario with VERIF_C17_SCENARIO set)
 // so that a race report or a hang in one scenario neither fails the harness nor hides the others.
 // Observed per run:
-//   race  — the output contains "WARNING: DATA RACE" or the runtime's fatal "concurrent map" error;
-//   hang  — the scenario did not finish within its watchdog (goroutines blocked on a leaked lock):
-//           the goroutine dump is the replay;
-//   crash — the process was aborted by a panic raised in Vouch's own code (the first frame of the
-//           panicking goroutine outside the Go runtime is in github.com/attestantio/vouch, not in a
-//           mock): an overlap made an operation see a state that no sequential order produces.
+//
+//	race  — the output contains "WARNING: DATA RACE" or the runtime's fatal "concurrent map" error;
+//	hang  — the scenario did not finish within its watchdog (goroutines blocked on a leaked lock):
+//	        the goroutine dump is the replay;
+//	crash — the process was aborted by a panic raised in Vouch's own code (the first frame of the
+//	        panicking goroutine outside the Go runtime is in github.com/attestantio/vouch, not in a
+//	        mock): an overlap made an operation see a state that no sequential order produces.
+//
 // A scenario that fails for any other reason is a harness problem and fails the harness run.
 //
 // Input (corpus / replay): {"scenario": <name>}.  The corpus holds the scenarios that witnessed the
